@@ -40,6 +40,13 @@ ENGINES["expsim"] = {
     "ldflags": WRAP_MALLOC + ["-Wl,--wrap=gsl_rng_uniform_int"],
 }
 
+GSL_WRAPS = ["gsl_blas_zgemm", "gsl_matrix_complex_memcpy", "gsl_matrix_complex_scale", "gsl_matrix_complex_set_all", "gsl_matrix_complex_set_identity",
+             "gsl_linalg_complex_LU_decomp", "gsl_linalg_complex_LU_solve", "gsl_eigen_hermv", "gsl_matrix_complex_get", "gsl_matrix_complex_set"]
+ENGINES["threadsim"] = {
+    "sources": LIB + [("nosan", "sim/sched.cpp"), ("nosan", "sim/simalloc.cpp"), ("harness", "engines/threadsim/threadsim.cpp"), ("harness", "engines/threadsim/gslwrap.cpp")],
+    "ldflags": WRAP_MALLOC + ["-Wl,--wrap=gsl_rng_uniform_int"] + ["-Wl," + ",".join("--wrap=" + w for w in GSL_WRAPS)],
+}
+
 REAL_STUB_COMMON = {
     "real": ["every line of /repo/include and /repo/src that the engine links (compiled from the working tree)"],
     "simulated": [],
@@ -173,4 +180,26 @@ PROPS["C07"] = {
                     "mu_2 is computed with gsl_eigen_herm on the Hermitian part (trusted)", "GSL error handler off"],
     "batches": {"quick": [{"engine": "expsim", "config": "asan", "runs": 12000, "deadline": 80}],
                 "thorough": [{"engine": "expsim", "config": "asan", "runs": 400000, "deadline": 1200}, {"engine": "expsim", "config": "plain", "runs": 2000000, "base": 400000, "deadline": 900}]},
+}
+
+
+PROPS["C18"] = {
+    "level": "exploration",
+    "rule": ("plans are generated from (VERIF_SEED, run index): 2-4 simulated threads, each a program of <=12 operations over {vector algebra with resizes and consuming "
+             "expressions, bursts of 34 vectors, scratch-using matrix functions (UTransform, UDaggerTransform, Rotate(matrix), GetEigenSystem, RotateToB1), matrix_exponential, "
+             "UTransform(v,i*s), send / receive of heap vectors over a channel (a block allocated on one thread is released on another), five kinds of const queries on one "
+             "shared solver}, then thread exit; scheduler policy uniform / PCT(d<=3) / <=3 pre-emptions; yield points at operation boundaries, every allocation and release "
+             "(S1,S2), the H0 callback (S5), every bulk GSL call (S9) and channel operations. Each plan is executed under the non-pre-emptive reference schedule and under the "
+             "seeded schedule; per-operation result hashes must be identical, ThreadSanitizer (tsan build; the baton is invisible to it) must stay silent, and after all threads "
+             "ended no library block may remain. distinct = hash of the executed (thread, site) sequence; non-trivial = at least one pre-emption inside an operation"),
+    "distinct_measure": "hash of the executed (thread,site) sequence",
+    "real_vs_stub": {"real": ["all four library sources and headers from the working tree", "real pthreads with real thread-local storage", "GSL 2.7.1 (static)", "ThreadSanitizer / AddressSanitizer runtimes"],
+                     "simulated": ["which thread runs at every yield point (S3 futex baton scheduler, not visible to TSan)", "operator new/delete and malloc/free of GSL (S1,S2) as yield points with a ledger",
+                                   "the GSL call boundary (S9: link-time wrappers that yield and annotate argument blocks for TSan)", "estimator bits per operation (S7)",
+                                   "the shared solver's H0 callback (S5, a yield point)"]},
+    "assumptions": ["races inside uninstrumented libgsl on its own globals (e.g. gsl_rng_env_setup) are not visible", "only sequentially consistent, serialised executions are explored",
+                    "hand-over of a vector between threads is synchronised by the user (a mutex-protected channel), as any real program must"],
+    "batches": {"quick": [{"engine": "threadsim", "config": "tsan", "runs": 6000, "deadline": 70}, {"engine": "threadsim", "config": "asan", "runs": 4000, "deadline": 50}],
+                "thorough": [{"engine": "threadsim", "config": "tsan", "runs": 1000000, "deadline": 1200}, {"engine": "threadsim", "config": "asan", "runs": 300000, "deadline": 900},
+                             {"engine": "threadsim", "config": "plain", "runs": 1000000, "base": 1000000, "deadline": 600}]},
 }
